@@ -172,7 +172,7 @@ Fixpoint lookup (k : str) (l : list (str * fix_kind)) : option fix_kind :=
   match l with [] => None | (k', v) :: r => if str_eqb k k' then Some v else lookup k r end.
 
 (* fix_change: after the most recent TOP-LEVEL import declaration seen so far -- on a new line (leading newline), or on
-   the same line behind a blank when more code follows the import on its line (`inline`: that code must stay on the line a
+   the same line behind a blank when another TOKEN (not a comment) follows the import on its line (`inline`: that code must stay on the line a
    line-level ignore directive above it covers) --, else at `code_start` (trailing newline): the start of the first statement,
    or of a line-level ignore directive on the line right above it; a Replace goes over the identifier itself.
    (Before the fixes `last_import_end` was the most recent import declaration at any depth, the text always had a leading
